@@ -1,3 +1,4 @@
+import Rb.World
 import Rb.Alloc
 import Rb.Clone
 import Hb.Round
@@ -121,6 +122,24 @@ theorem prefix_fails :
     n < (serialize a b bufs).length →
     deserialize bufs.length ((serialize a b bufs).take n) = none :=
   @HbF.prefix_fails
+end
+
+section
+open RbW RbM
+
+/-- independence: an insertion into tree `t` changes no other tree (e.g. a clone living on a cloned allocator) and no
+allocator other than the one `t` lives on -/
+theorem insert_frame :
+    ∀ (w w' : W) (t k v id : Nat) (ok : Bool) (h : w.insert t k v id = some (w', ok)),
+    (∀ t2, t2 ≠ t → w'.tree t2 = w.tree t2) ∧
+    (∀ a tr, w.tree t = some (a, tr) → ∀ a2, a2 ≠ a → w'.arena a2 = w.arena a2) :=
+  @RbW.insert_frame
+
+theorem delete_frame :
+    ∀ (w w' : W) (t k : Nat) (ok : Bool) (h : w.delete t k = some (w', ok)),
+    (∀ t2, t2 ≠ t → w'.tree t2 = w.tree t2) ∧
+    (∀ a tr, w.tree t = some (a, tr) → ∀ a2, a2 ≠ a → w'.arena a2 = w.arena a2) :=
+  @RbW.delete_frame
 end
 
 end Props.C06
